@@ -322,10 +322,75 @@ func cmdReplay(args []string) {
 		}
 		rep.Mismatch(vh.Mismatch{Case: caseInfo(t, c, r, aspect), What: what, Known: known})
 	}
+	if !*flip {
+		bulk(t, vecs, rep, &rot)
+	}
 	rep.Extra["text_drift"] = drift
 	rep.Extra["known_outcome_but_other_text"] = knownDrift
 	rep.Extra["deviation_changes_text_only"] = harmless
 	rep.Emit()
+}
+
+// bulk: ReadWriteSDL / ReadWriteJSON hold of every value, the long and flat ones too: lists of 1200 of the objects (and of
+// the lists) the vectors hold, a list of 1200 empty objects, one object with 1200 entries.  The expectation is the
+// invariant itself: what is read back is the value; the JSON form decodes to it.
+func bulk(t *vt.Tables, vecs []Vector, rep *vh.Report, rot *int) {
+	var objs, lists []*vt.Val
+	seen := map[string]bool{}
+	for i := range vecs {
+		v := vecs[i].V
+		if v == nil || seen[v.Canon(t)] || vecs[i].OutsK != nil {
+			continue
+		}
+		seen[v.Canon(t)] = true
+		switch {
+		case v.K == "obj" && len(objs) < 40:
+			objs = append(objs, v)
+		case v.K == "list" && len(lists) < 40:
+			lists = append(lists, v)
+		}
+	}
+	rep_ := func(src []*vt.Val, n int) *vt.Val {
+		out := &vt.Val{K: "list"}
+		for i := 0; i < n && 0 < len(src); i++ {
+			out.List = append(out.List, src[i%len(src)])
+		}
+		return out
+	}
+	wide := &vt.Val{K: "obj"}
+	for i := 0; i < 1200; i++ {
+		wide.Ents = append(wide.Ents, vt.Ent{Key: t.Chars(fmt.Sprintf("k%d", i)), Val: &vt.Val{K: "obj"}})
+	}
+	cases := map[string]*vt.Val{"1200 objects": rep_(objs, 1200), "1200 lists": rep_(lists, 1200),
+		"1200 empty objects": rep_([]*vt.Val{{K: "obj"}}, 1200), "1200 entries": wide}
+	for name, v := range cases {
+		if v.K == "list" && len(v.List) == 0 {
+			continue
+		}
+		for _, format := range []string{"sdl", "json"} {
+			for _, ind := range []int{-1, 0, 2} {
+				r, err := run(t, v, format, ind, true, rot)
+				if err != nil {
+					vh.Die("bulk %s: %s", name, err)
+				}
+				rep.Case("bulk|"+name+"|"+format+fmt.Sprint(ind), true)
+				rep.Class("bulk")
+				what := ""
+				switch {
+				case r.WriteErr != "":
+					what = "the writer failed: " + r.WriteErr
+				case r.Back.Canon(t) != v.Canon(t):
+					what = "the value read back is not the value: " + r.BackErr
+				case format == "json" && r.Jdec.Canon(t) != v.Canon(t):
+					what = "encoding/json does not decode the JSON form to the value: " + r.JdecErr
+				}
+				if what != "" {
+					rep.Mismatch(vh.Mismatch{Case: map[string]interface{}{"value": "a list / object of " + name, "format": format, "indent": ind, "bytes": len(r.Bytes)},
+						What: "bulk (" + name + "): " + what})
+				}
+			}
+		}
+	}
 }
 
 // ---------------------------------------------------------------- record ----
